@@ -8,6 +8,17 @@ def _load(pid):
     return importlib.import_module(f"vlib.props.{pid.lower()}")
 
 
+def _strict(x):
+    """evidence must be strict JSON: non-finite floats (a NaN header time in a sample) become text"""
+    if isinstance(x, float) and (x != x or x in (float("inf"), float("-inf"))):
+        return repr(x)
+    if isinstance(x, dict):
+        return {str(k): _strict(v) for k, v in x.items()}
+    if isinstance(x, (list, tuple)):
+        return [_strict(v) for v in x]
+    return x
+
+
 def main():
     ap = argparse.ArgumentParser()
     ap.add_argument("prop")
@@ -141,7 +152,7 @@ def main():
             evdir = os.environ.get("VERIF_EVIDENCE_DIR") or os.path.join(common.scratch_root(), "evidence_alt")
         os.makedirs(evdir, exist_ok=True)
         with open(os.path.join(evdir, f"{pid}.json"), "w") as f:
-            json.dump(ev, f, indent=1, sort_keys=True, default=str)
+            json.dump(_strict(ev), f, indent=1, sort_keys=True, default=str, allow_nan=False)
     # ---- verdict
     print(f"[{pid} {tier} seed={seed}] cases={len(cases)} evaluations={evals} held={held} "
           f"distinct_nontrivial={len(nontriv)} skipped={skipped} inconclusive={len(incs)} "
